@@ -81,6 +81,15 @@ fn findnode_log2distance(target: NodeId, peer: NodeId, size: usize) -> Option<Ve
     Some(result_list[..size].to_vec())
 }
 
+#[cfg(feature = "verif-hooks")]
+pub(crate) fn verif_findnode_log2distance(
+    target: NodeId,
+    peer: NodeId,
+    size: usize,
+) -> Option<Vec<u64>> {
+    findnode_log2distance(target, peer, size)
+}
+
 #[cfg(test)]
 mod tests {
     use super::*;
